@@ -1,19 +1,19 @@
 SPECIFICATION Spec
 CONSTANTS
-  Req = {r1, r2, r3}
+  Req = {r1, r2}
   NKeys = 2
-  Prio <- P21
+  Prio <- P11
   MaxItem = 4
-  MaxCtx = 5
-  MaxRevoke = 1
-  MaxFault = 1
+  MaxCtx = 4
+  MaxRevoke = 2
+  MaxFault = 2
   NBackoff = 1
-  MaxExpire = 1
-  MaxRounds = 1
-  SameIsIdentical = TRUE
+  MaxExpire = 0
+  MaxRounds = 2
+  SameIsIdentical = FALSE
   Variant = "code"
   Mode = "conn"
-  LoginOutcomes <- FreshSame
+  LoginOutcomes <- AllOutcomes
 SYMMETRY Symm
 INVARIANT TypeOK
 INVARIANT NoReuse
@@ -21,6 +21,6 @@ INVARIANT NoCrash
 INVARIANT SingleReauth
 INVARIANT LockDiscipline
 INVARIANT NoLeak
-INVARIANT NoExpiredUse
+INVARIANT NotReadyMeansEmpty
 PROPERTY LoginOnlyWhenNotReady
 CHECK_DEADLOCK FALSE
